@@ -7,6 +7,7 @@ Created on May 18, 2020
 from ast import BinOp
 from typing import Dict, Set
 import typing
+from vsc.model.expr_indexed_dynref_model import ExprIndexedDynRefModel
 from vsc.model.bin_expr_type import BinExprType
 from vsc.model.constraint_block_model import ConstraintBlockModel
 from vsc.model.constraint_expr_model import ConstraintExprModel
@@ -110,7 +111,8 @@ class ArrayConstraintBuilder(ConstraintOverrideVisitor):
 
     def visit_expr_indexed_dynref(self, e):
         if self.do_copy_level > 0:
-            super().visit_expr_indexed_dynref(e)
+            # Copy the reference with the foreach index resolved
+            self._expr = ExprIndexedDynRefModel(self.expr(e.root), e.idx, e.name)
         else:
             # As for a direct reference, the referenced dynamic-constraint 
             # block is part of this solve: expand the arrays it iterates over
